@@ -35,6 +35,16 @@ class SymT(Ext):
             return self.mshape
         if name == "shape":
             return self.shape
+        shp = tuple(self.shape) + (1,) * (2 - len(self.shape)) if len(self.shape) < 2 else tuple(self.shape)
+        if name == "size":
+            return stub(lambda eng, *a: shp if not a else shp[a[0] - 1])
+        if name in ("size1", "size2"):
+            return stub(lambda eng: shp[int(name[-1]) - 1])
+        if name in ("numel", "nnz"):
+            n_ = 1
+            for d_ in shp:
+                n_ *= d_
+            return stub(lambda eng: n_)
         raise Unsupported("MX.%s" % name)
 
     def sym_isinstance(self, eng, cls):
@@ -51,6 +61,18 @@ class Mat(Ext):
     def sym_getattr(self, eng, name):
         if name == "shape":
             return self.shape
+        if name == "size":
+            return stub(lambda eng, *a: tuple(self.shape) if not a else self.shape[a[0] - 1])
+        if name in ("size1", "size2"):
+            return stub(lambda eng: self.shape[int(name[-1]) - 1])
+        if name in ("numel", "nnz"):
+            return stub(lambda eng: self.shape[0] * self.shape[1])
+        if name == "is_scalar":
+            return stub(lambda eng, *a: tuple(self.shape) == (1, 1))
+        if name in ("is_vector", "is_column"):
+            return stub(lambda eng: self.shape[1] == 1)
+        if name in ("is_constant", "is_symbolic", "is_empty"):
+            return stub(lambda eng, *a: False)
         raise Unsupported("MX.%s" % name)
 
     def sym_getitem(self, eng, key):
@@ -287,7 +309,9 @@ def h_expand(eng, cases=None):
     other = VObj(var_cls, {"symbol": SymT("other", (1, 1), ((None,),)), "python_type": eng.builtins["float"]})
     m = VObj(cls, {g: VList([]) for g in ("states", "der_states", "alg_states", "inputs", "parameters", "constants")})
     m.fields[group] = VList([other, old]) if eng.choice(2) else VList([old, other])
-    m.fields.update({"equations": VList([]), "initial_equations": VList([]), "delay_arguments": VList([]), "delay_states": VList([]),
+    # one matrix-valued equation and one matrix-valued initial equation (der(W) = ..., a loop over several equations, ...)
+    eq_mat, ieq_mat = Mat("equation", (2, 3)), Mat("initial_equation", (3, 2))
+    m.fields.update({"equations": VList([eq_mat]), "initial_equations": VList([ieq_mat]), "delay_arguments": VList([]), "delay_states": VList([]),
                      "outputs": VList(["before", name, "after"])})
     dexpr = Mat("delayed_expr", cshape)
     if delay:
@@ -336,6 +360,14 @@ def h_expand(eng, cases=None):
             eng.prove("expand.attribute_element_matches_scalar_index", z3.BoolVal(bool(ok)), attribute=a, kind=kinds[a], index=list(ind))
         eng.prove("expand.python_type_kept", z3.BoolVal(v.fields.get("python_type") is old.fields["python_type"]))
     # (P) outputs: the array's entry is replaced in place by the scalars' names in order
+    # (P) the residual of the expanded model is the unexpanded residual entry by entry: the unexpanded functions stack the equations
+    # with ca.veccat, i.e. each matrix equation column by column, so the scalar equations come in that order
+    for label, mat, fld in (("equation", eq_mat, "equations"), ("initial_equation", ieq_mat, "initial_equations")):
+        got_eq = m.fields[fld].items if isinstance(m.fields[fld], VList) else list(m.fields[fld])
+        want_pos = [(r_, c_) for c_ in range(mat.shape[1]) for r_ in range(mat.shape[0])]
+        okq = len(got_eq) == len(want_pos) and all(isinstance(e_, Elem) and e_.mat is mat and e_.position() == w_ for e_, w_ in zip(got_eq, want_pos))
+        eng.prove("expand.matrix_%s_becomes_its_entries_in_column_order" % label, z3.BoolVal(bool(okq)),
+                  got=[e_.position() if isinstance(e_, Elem) else repr(e_) for e_ in got_eq][:8])
     eng.prove("expand.outputs_replaced_in_place_in_order", z3.BoolVal(m.fields["outputs"].items == ["before"] + want + ["after"]))
     # (P) the substitution value is reshape(vertcat(row-major scalars), reversed shape).T
     # (checked through the call to _substitute_metadata, which receives the symbols / values lists)
@@ -415,7 +447,10 @@ def h_get_symbol(eng):
     from .ast_common import base_modules
     base_modules(eng)
     from .api_common import ModuleStub as _MS
-    eng.ext_modules["casadi"] = _MS("casadi", {"MX": VClass("MX"), "DM": VClass("DM")})
+    dm_cls = VClass("DM")
+    for nme in ("zeros", "ones", "eye", "nan", "inf"):
+        dm_cls.attrs[nme] = stub((lambda n_: lambda eng, *a: Mat("DM." + n_, tuple(a[0]) if a and isinstance(a[0], tuple) else tuple(a) or (1, 1)))(nme))
+    eng.ext_modules["casadi"] = _MS("casadi", {"MX": VClass("MX"), "DM": dm_cls})
     eng.ext_modules["numpy"] = _MS("numpy", {})
     eng.ext_modules["pymoca.tree"] = _MS("pymoca.tree", {"TreeListener": VClass("TreeListener"), "TreeWalker": VClass("TreeWalker"), "flatten": None})
     gm = eng.load_module(GEN)
@@ -455,11 +490,15 @@ def h_get_symbol(eng):
     eng.call_contracts["_new_mx"] = new_mx
     klass = VObj(VClass("Class"), {"name": "M"})
     nodes = VDict([(klass, VDict())])
-    g = new_generator(eng, gm, {"nodes": nodes, "entered_classes": VList([klass]), "src": VDict(), "_expand_vectors_enabled": expand, "for_loops": VList([])})
+    derivative = VDict()
+    g = new_generator(eng, gm, {"nodes": nodes, "entered_classes": VList([klass]), "src": VDict(), "_expand_vectors_enabled": expand, "for_loops": VList([]),
+                                "derivative": derivative})
     dims = VList([VList([("dim", d) for d in level]) for level in shape])
     eng.call_contracts["Generator.get_integer"] = lambda eng, args, kw: args[1][1]
     name = ".".join("c%d" % i for i in range(len(shape)))
-    tree = VObj(VClass("Symbol"), {"name": name, "dimensions": dims, "value": None})
+    prefixes = [[], ["constant"], ["parameter"], ["input"]][eng.choice(4)]
+    eng.input("prefixes", prefixes)
+    tree = VObj(VClass("Symbol"), {"name": name, "dimensions": dims, "value": None, "prefixes": VList(list(prefixes))})
     flat = [d for level in shape for d in level if d is not None]
     f = eng.find_function(GEN, "Generator.get_symbol")
     try:
@@ -481,6 +520,10 @@ def h_get_symbol(eng):
     eng.prove("symbol.modelica_shape_records_every_level_of_the_path", z3.BoolVal(getattr(r, "mshape", None) == tuple(tuple(l) for l in shape) and len(r.mshape) == len(name.split("."))))
     kn = nodes.vals[0]
     eng.prove("symbol.registered_under_the_flat_name", z3.BoolVal(kn.keys == [name] and kn.vals[0] is r))
+    # frame: creating the symbol of a variable (of whatever class of the flat tree -- a model, or a function whose local names may
+    # equal names of the model) says nothing about derivatives: the table `derivative`, keyed by bare names and shared by the
+    # whole generator, is get_derivative's alone
+    eng.prove("symbol.creating_a_symbol_leaves_the_derivative_table_alone", z3.BoolVal(len(derivative.keys) == 0), keys=[str(k) for k in derivative.keys])
 
 
 def h_derivative_symbol_of_a_matrix(eng):
